@@ -115,3 +115,21 @@ Proof.
   - split; [discriminate|]. repeat constructor.
   - vm_compute. reflexivity.
 Qed.
+
+(* The second tie: constants, the fork-override table, IsForkActive and
+   numRequiredTransitionValidators as regenerated from the source on this run
+   (Generated/AppConsts.v) agree with the model the theorems above are about. *)
+From Verif Require Import Generated.AppConsts Proofs.AppConsts.
+Theorem C12_translated_source_agrees :
+  (gen_max_txs_per_block = max_txs_per_block /\
+   gen_code_ok = code_ok /\ gen_code_error = code_error /\ gen_code_seen = code_seen /\
+   gen_power_per_keyper = 10%Z /\ gen_nonexistent_validator = nonexistent_validator) /\
+  (forall chain, fork_override chain = lookup_override gen_fork_overrides chain) /\
+  (forall o en h ch ce, gen_is_fork_active o en h ch ce = is_fork_active o en h ch ce) /\
+  (forall c, (Z.of_nat (List.length (c_keypers c)) < two63)%Z ->
+             Z.of_N (num_required_transition c) =
+             gen_num_required_transition (Z.of_nat (List.length (c_keypers c))) (Z.of_N (c_threshold c))).
+Proof.
+  split; [exact consts_agree|]. split; [exact fork_overrides_agree|]. split; [exact is_fork_active_agrees|exact num_required_agrees].
+Qed.
+Print Assumptions C12_translated_source_agrees.
